@@ -1103,3 +1103,26 @@ def elbo_vi_rule(ctx, rule="ROLE-elbo_vi"):
         ctx.ok(rule, "vi.elbo_vi")
     else:
         ctx.bad(rule, "vi.elbo_vi", "pipeline wiring", f"expected optimize_vi(elbo_factory(target, family, constraint, target_args), ...), found {short(s.ret, ev, 300)}", func_loc(ctx, dotted))
+
+
+def scalar_reduction_rule(ctx, rule="SHAPE-scalar-terms"):
+    """Per-leaf proposal-density (mala) and kinetic-energy (hmc) terms feed a scalar accept test through
+    tree_reduce(jnp.add, tree_map(f, …)), which sums across leaves but not inside a leaf: f must reduce each leaf
+    completely (jnp.sum with no axis) or array-valued choices give a vector acceptance."""
+    for kernel in ("mala", "hmc"):
+        ev = mk_ev(ctx)
+        dotted = MCMC + kernel
+        s = summarize(ctx, ev, dotted)
+        sums = [x for x in set(subterms(s.ret)) if is_call(x, name="jax.tree_util.tree_reduce") and len(x[2]) == 2 and x[2][1][0] == "treemap"]
+        ctx.need(len(sums) >= 2, f"mcmc.{kernel}: tree-reduced per-leaf terms not found")
+        for x in sums:
+            body = x[2][1][2]
+            ok = is_call(body, name="jax.numpy.sum") and len(body[2]) == 1 and all(k == "axis" and is_const(v, None) for k, v in body[3])
+            inner = body[2][0] if ok else body
+            what = "normal.logpdf" if any(is_call(y, name=DIST + "normal.logpdf") for y in subterms(inner)) else "term"
+            if ok:
+                ctx.ok(rule, f"mcmc.{kernel}", f"per-leaf {what} summed over all coordinates")
+            else:
+                ctx.bad(rule, f"mcmc.{kernel}", f"per-leaf term not reduced: {short(body, ev, 80)}",
+                        f"a per-leaf term {short(body, ev, 120)} is combined by tree_reduce(jnp.add, …) without being summed over the leaf's own coordinates: "
+                        "for an array-valued choice the log acceptance ratio becomes a vector", func_loc(ctx, dotted))
